@@ -161,9 +161,8 @@ def candidate_rule(ctx, crate):
                 d = {}
                 for a, v in f2:
                     d["fd" if a == strip_sites(fd) else "dir"] = v
-                if d.get("fd") is True and d.get("dir") is False:
-                    ok = False
-                if d.get("fd") is True and "dir" not in d:
+                # on every path to the push: either directories were not asked for, or the entry is one
+                if not (d.get("fd") is False or d.get("dir") is True):
                     ok = False
         ok = ok and seen_push
     ctx.ob("R20-3", b.path, "non-directories are skipped when only directories are wanted (cd)", ok,
